@@ -168,7 +168,7 @@ type checker struct {
 	pool  chan *kproc
 	all   []*kproc
 
-	evals, kcalls, distinct, programs, dupProgs, byRule, byFb, mustDec, markDec, dnsCP, dnsMust, lanDec, wanDec, tcpDec, udpDec, v4Dec, v6Dec, domKnown, skippedUnspec, kernNeg, refCmp *atomic.Int64
+	evals, kcalls, distinct, histDec, histSkip, programs, dupProgs, byRule, byFb, mustDec, markDec, dnsCP, dnsMust, lanDec, wanDec, tcpDec, udpDec, v4Dec, v6Dec, domKnown, skippedUnspec, kernNeg, refCmp *atomic.Int64
 	mism                                                                                                                                                          atomic.Int64
 
 	ringMu sync.Mutex
@@ -248,6 +248,7 @@ type caseDetail struct {
 	Reference string          `json:"reference"`
 	Rules     []string        `json:"routing_map_hex"`
 	Alloc     uint32          `json:"lpm_alloc_start"`
+	History   string          `json:"dns_answer_history,omitempty"`
 }
 
 func (c *checker) violate(sig string, d any) {
@@ -963,6 +964,16 @@ func (c *checker) replay() {
 	var f struct {
 		Detail caseDetail `json:"detail"`
 	}
+	if err := json.Unmarshal(b, &f); err == nil && f.Detail.History != "" {
+		// a histories-leg violation: the leg is small, re-run it completely
+		c.runHistories()
+		fmt.Printf("REPLAY histories leg (recorded history %s): mismatches: %d\n", f.Detail.History, c.mism.Load())
+		if c.mism.Load() != 0 {
+			fmt.Println("VIOLATION property=C02 replay=" + c.r.ReplayArg)
+			os.Exit(1)
+		}
+		os.Exit(0)
+	}
 	if err := json.Unmarshal(b, &f); err != nil || f.Detail.Program == nil {
 		broken("replay file has no program/packet (build- or load-leg violation?) %v", err)
 	}
@@ -1008,6 +1019,8 @@ func main() {
 	c.kernNeg, c.refCmp = r.Counter("kernel_negative_results"), r.Counter("three_way_comparisons")
 	c.kcalls = r.Counter("kernel_route_calls")
 	c.distinct = r.Counter("distinct_nontrivial")
+	c.histDec = r.Counter("decisions_over_tracker_histories")
+	c.histSkip = r.Counter("history_pairs_not_comparable_address_shared_with_other_bitmaps")
 
 	if err := vroute.SelfTest(); err != nil {
 		broken("%v", err)
@@ -1064,6 +1077,7 @@ func main() {
 		os.Exit(0)
 	}
 
+	c.runHistories()
 	full := vroute.PacketOpts{MappedForms: true}
 	vb := variantBase()
 	c.runSpace(vb, vroute.PacketOpts{Compact: true, MappedForms: true}, true, true, true)
@@ -1072,7 +1086,7 @@ func main() {
 	t1 := fromV(vroute.Tier1())
 	c.runSpace(t1, full, true, true, false)
 	c.runSpace(fromV(vroute.Tier2(1, true, vroute.Tier2Outbounds)), full, true, true, r.Thorough())
-	rule := "programs: (a) " + vb.Descr + " (compact packet product); (a2) " + lb.Descr + " (compact packet product); (b) tier 1 = " + t1.Descr + "; (c) tier 2 = 4 rotations of three independent atoms, rule = any non-empty conjunction of {A,!A,B,!B,C,!C} (26) x single/multi-valued realisation x outbound: all programs of exactly 1 rule (realisation per rule, 5 outbounds incl. must_rules)"
+	rule := "histories leg: " + histDescr + ". programs: (a) " + vb.Descr + " (compact packet product); (a2) " + lb.Descr + " (compact packet product); (b) tier 1 = " + t1.Descr + "; (c) tier 2 = 4 rotations of three independent atoms, rule = any non-empty conjunction of {A,!A,B,!B,C,!C} (26) x single/multi-valued realisation x outbound: all programs of exactly 1 rule (realisation per rule, 5 outbounds incl. must_rules)"
 	if !r.Thorough() {
 		c.runSpace(fromV(vroute.Tier2(2, false, vroute.Tier2OutboundsSmall)), vroute.PacketOpts{Compact: true}, true, false, false)
 		rule += " and, quick tier, all programs of exactly 2 rules over the 3 outbounds {g1, must_g2, must_rules} with the realisation chosen per program (compact packet product: one inside + one outside neighbour per constant)"
